@@ -828,7 +828,20 @@ func genKeyExpr(r *Rand, failRate int) exprSpec {
 		// int of a text that is not a number is an error by the README and 0 in the engine: either way the division fails
 		return exprSpec{"str(10 / int('x'))", func(string) (string, bool) { return "", false }}
 	}
-	switch r.Intn(9) {
+	switch r.Intn(11) {
+	case 9:
+		// len() of a list is the one built-in whose result is a Go `int` (everything else is int64):
+		// as a key it is written in decimal like any other number
+		n := 1 + r.Intn(4)
+		parts := []string{"a", "b", "c", "d"}[:n]
+		return exprSpec{"len(split(" + q1(strings.Join(parts, ",")) + ", ','))", func(string) (string, bool) { return strconv.Itoa(n), true }}
+	case 10:
+		n := 1 + r.Intn(3)
+		items := []string{"1", "2", "3"}[:n]
+		if r.Bool() {
+			return exprSpec{q1(k) + " + str(len(list(" + strings.Join(items, ", ") + ")))", func(string) (string, bool) { return k + strconv.Itoa(n), true }}
+		}
+		return exprSpec{"len(list(" + strings.Join(items, ", ") + "))", func(string) (string, bool) { return strconv.Itoa(n), true }}
 	case 8:
 		// `key` inside a KEY expression: there is no key yet, it reads as the empty text for every pair
 		// (never the key of the pair written before)
@@ -857,7 +870,19 @@ func genValExpr(r *Rand, failRate int) exprSpec {
 	if failRate > 0 && r.Chance(1, failRate) {
 		return exprSpec{"str(10 / int('x'))", func(string) (string, bool) { return "", false }}
 	}
-	switch r.Intn(10) {
+	switch r.Intn(13) {
+	case 10:
+		// len() gives a Go `int`, the only one among the built-ins: stored in decimal
+		n := 1 + r.Intn(4)
+		parts := []string{"a", "b", "c", "d"}[:n]
+		return exprSpec{"len(split(" + q1(strings.Join(parts, ",")) + ", ','))", func(string) (string, bool) { return strconv.Itoa(n), true }}
+	case 11:
+		n := 1 + r.Intn(3)
+		items := []string{"1", "2", "3"}[:n]
+		return exprSpec{"'n=' + str(len(list(" + strings.Join(items, ", ") + ")))", func(string) (string, bool) { return "n=" + strconv.Itoa(n), true }}
+	case 12:
+		// the number of '-' separated parts of the pair's own key
+		return exprSpec{"len(split(key, '-'))", func(k string) (string, bool) { return strconv.Itoa(len(strings.Split(k, "-"))), true }}
 	case 0:
 		return exprSpec{"key", func(k string) (string, bool) { return k, true }}
 	case 1:
@@ -1313,7 +1338,7 @@ var planBatchSizes = []int{1, 2, 3, 5}
 
 func runPLAN(e *Env) (*Summary, error) {
 	start := time.Now()
-	col := NewCollector("PLAN", e.Tier, e.Seed, "statements (select * / delete [limit] / put / remove) x stores of 0..3bs+2 pairs x bs in {1,2,3,5} x {next,batch}: engine rows, call log and final store = model; oracles C01 C11 C12 C13 C18 on every fault-free run")
+	col := NewCollector("PLAN", e.Tier, e.Seed, "statements (select * / delete [limit] / put / remove) x stores of 0..3bs+2 pairs x bs in {1,2,3,5} x {next,batch}: engine rows, call log and final store = model; oracles C01 C11 C12 C13 C18 on every fault-free run; restart phase: select plans read partly, Init(), drained (rows = fresh plan, reads inside the region) and delete plans executed, Init(), executed again (= select on the store as it is then)")
 	perBs := e.n(12000, 120000)
 	saved := kvql.PlanBatchSize
 	defer func() { kvql.PlanBatchSize = saved }()
@@ -1386,6 +1411,9 @@ func runPLAN(e *Env) (*Summary, error) {
 			return nil
 		})
 		if err != nil {
+			return nil, err
+		}
+		if err := planRestart(e, col, bs); err != nil {
 			return nil, err
 		}
 	}
@@ -1493,6 +1521,502 @@ func (pe *planEnv) mgetKeys(r *Rand) error {
 		pe.find("correspondence", "NewMultiGetPlan-keys", fmt.Sprintf("keys %q", keys), line, listOr(out), resp, []string{"C01", "C18"})
 	}
 	return nil
+}
+
+// ---------------------------------------------------------------- RESTART (Init() = start over)
+//
+// Every plan of the library implements Init() as "put the plan back into its initial state":
+// the scans open a new cursor and clear `done`, LIMIT clears its counters, ORDER BY drops what it
+// sorted, DELETE clears `executed`.  The oracles below use nothing but the public Plan interface:
+//
+//   select: build, read k rows (or k batches; k = 0, 1, some, all, all + the end-of-stream poll),
+//           Init(), drain: the rows are the rows of a fresh plan of the same statement over the same
+//           store (C01; C02 when the access path is narrowed; C07 under ORDER BY: the sequence of the
+//           order columns and, without LIMIT, the multiset of the rows), and the storage reads issued
+//           after the restart stay inside the region of the scan node (C18, trafficOracle);
+//   delete: build a DeletePlan over a cursor scan, execute, then (twice) Init() and execute again: each
+//           further execution removes exactly what `select * <same where/limit>` returns on the
+//           store as it is then (C11; C02 when narrowed), nothing is put, reads stay in the region.
+//
+// Left out (behaviour of the unchanged engine, see REPORT.md): plans over a MultiGetPlan (its Init does
+// not rewind the key index) and aggregated statements (AggregatePlan.Init does not clear `prepared`).
+
+// planChain names the nodes of a plan from the top down to the scan node
+func planChain(p any) (chain []string, leaf kvql.Plan) {
+	for depth := 0; depth < 16; depth++ {
+		switch x := p.(type) {
+		case *kvql.FinalLimitPlan:
+			chain, p = append(chain, "limit"), x.ChildPlan
+		case *kvql.FinalOrderPlan:
+			chain, p = append(chain, "order"), x.ChildPlan
+		case *kvql.ProjectionPlan:
+			chain, p = append(chain, "projection"), x.ChildPlan
+		case *kvql.AggregatePlan:
+			chain, p = append(chain, "aggregate"), x.ChildPlan
+		case *kvql.DeletePlan:
+			chain, p = append(chain, "delete"), x.ChildPlan
+		case *kvql.LimitPlan:
+			chain, p = append(chain, "kvlimit"), x.ChildPlan
+		case kvql.Plan:
+			if n, _, ok := nodeOfPlan(x); ok {
+				return append(chain, n.Kind), x
+			}
+			return append(chain, fmt.Sprintf("%T", x)), nil
+		default:
+			return append(chain, fmt.Sprintf("%T", x)), nil
+		}
+	}
+	return chain, nil
+}
+
+func chainHas(chain []string, name string) bool {
+	for _, c := range chain {
+		if c == name {
+			return true
+		}
+	}
+	return false
+}
+
+// pollPlan polls a plan at most `polls` times (polls < 0: until the end of the stream, which is seen);
+// rows by content; ended = the end of the stream was seen
+func pollPlan(plan kvql.FinalPlan, ctx *kvql.ExecuteCtx, batch bool, polls int) (rows [][]kvql.Column, ended bool, err error) {
+	for i := 0; polls < 0 || i < polls; i++ {
+		if i >= drainCap {
+			return rows, false, fmt.Errorf("no end of stream after %d polls", drainCap)
+		}
+		if batch {
+			rs, err := plan.Batch(ctx)
+			if err != nil {
+				return rows, false, err
+			}
+			if len(rs) == 0 {
+				return rows, true, nil
+			}
+			rows = append(rows, rs...)
+		} else {
+			r, err := plan.Next(ctx)
+			if err != nil {
+				return rows, false, err
+			}
+			if r == nil {
+				return rows, true, nil
+			}
+			rows = append(rows, r)
+		}
+	}
+	return rows, false, nil
+}
+
+func colRowsText(rows [][]kvql.Column, cols []int) []string {
+	out := make([]string, len(rows))
+	for i, r := range rows {
+		var c []string
+		if cols == nil {
+			for _, v := range r {
+				c = append(c, contentValue(v))
+			}
+		} else {
+			for _, j := range cols {
+				if j < len(r) {
+					c = append(c, contentValue(r[j]))
+				} else {
+					c = append(c, "<no column>")
+				}
+			}
+		}
+		out[i] = strings.Join(c, " ")
+	}
+	return out
+}
+
+func showRowTexts(rs []string) string {
+	if len(rs) == 0 {
+		return "-"
+	}
+	if len(rs) > 40 {
+		return fmt.Sprintf("%d rows: %s ; …", len(rs), strings.Join(rs[:40], " ; "))
+	}
+	return strings.Join(rs, " ; ")
+}
+
+type restartStmt struct {
+	q       string
+	ordCols []int // positions of the ORDER BY columns in the row (nil: not ordered)
+	limited bool
+}
+
+// genRestartSelect: select list x predicate x [order by 1..2 fields] x [limit]
+func genRestartSelect(r *Rand, bs int, i int) restartStmt {
+	type fld struct{ text, name string }
+	lists := [][]fld{
+		{{"*", ""}},
+		{{"key", "key"}, {"value", "value"}},
+		{{"key", "key"}, {"upper(value) as u", "u"}},
+		{{"value", "value"}, {"key", "key"}},
+		{{"key", "key"}, {"strlen(value) as n", "n"}, {"value", "value"}},
+		{{"key + '/' + value as kv", "kv"}, {"key", "key"}},
+	}
+	fl := pick(r, lists)
+	var rs restartStmt
+	var ft []string
+	for _, f := range fl {
+		ft = append(ft, f.text)
+	}
+	rs.q = "select " + strings.Join(ft, ", ") + " where " + pickPred(r, i)
+	if r.Chance(1, 12) {
+		// an aggregated statement: restarted before the first read only (see restartSelect)
+		fl = []fld{{"value", "value"}, {"count(1) as c", "c"}}
+		rs.q = "select value, count(1) as c where " + pickPred(r, i) + " group by value"
+	}
+	if r.Chance(1, 2) {
+		// `select *` has the columns key, value
+		names := []string{"key", "value"}
+		if fl[0].text != "*" {
+			names = names[:0]
+			for _, f := range fl {
+				names = append(names, f.name)
+			}
+		}
+		no := 1
+		if len(names) > 1 && r.Chance(1, 3) {
+			no = 2
+		}
+		var ot []string
+		seen := map[int]bool{}
+		for len(ot) < no {
+			j := r.Intn(len(names))
+			if seen[j] {
+				continue
+			}
+			seen[j] = true
+			ot = append(ot, names[j]+pick(r, []string{"", " asc", " desc", " desc"}))
+			rs.ordCols = append(rs.ordCols, j)
+		}
+		rs.q += " order by " + strings.Join(ot, ", ")
+	}
+	if r.Chance(2, 5) {
+		rs.limited = true
+		if r.Chance(1, 3) {
+			rs.q += fmt.Sprintf(" limit %d", r.Intn(2*bs+3))
+		} else {
+			rs.q += fmt.Sprintf(" limit %d, %d", r.Intn(2*bs+2), r.Intn(2*bs+3))
+		}
+	}
+	return rs
+}
+
+func restartCase(q string, kvs []KV, bs int, batch bool, what string) string {
+	mode := "next"
+	if batch {
+		mode = "batch"
+	}
+	return caseText(q, kvs, bs, mode, -1) + " | " + what
+}
+
+func restartLine(q string, kvs []KV, bs int, batch bool, k int) string {
+	mode := "next"
+	if batch {
+		mode = "batch"
+	}
+	return fmt.Sprintf("RESTART %s %s %d %d %s", hxs(q), mode, bs, k, storeWire(kvs))
+}
+
+// restartSelect: the select half of the restart oracle
+func (pe *planEnv) restartSelect(r *Rand, rs restartStmt, kvs []KV, bs int, batch bool) {
+	type outT struct {
+		skip      string
+		chain     []string
+		node      *scanNode
+		want, got [][]kvql.Column
+		k         int
+		unit      string
+		initErr   error
+		drainErr  error
+		after     []string
+	}
+	var o outT
+	msg, panicked := safely(func() string {
+		// the reference: a fresh plan of the same statement over the same store, drained once
+		ref, err := kvql.NewOptimizer(rs.q).BuildPlan(NewRefStore(kvs))
+		if err != nil {
+			o.skip = "rejected"
+			return ""
+		}
+		want, _, err := pollPlan(ref, kvql.NewExecuteCtx(), batch, -1)
+		if err != nil {
+			o.skip = "not-evaluable"
+			return ""
+		}
+		o.want = want
+		st := NewRefStore(kvs)
+		plan, err := kvql.NewOptimizer(rs.q).BuildPlan(st)
+		if err != nil {
+			o.skip = "rejected"
+			return ""
+		}
+		chain, leaf := planChain(plan)
+		o.chain = chain
+		if leaf == nil {
+			o.skip = "unknown-plan-shape"
+			return ""
+		}
+		o.node, _, _ = nodeOfPlan(leaf)
+		if o.node.Kind == "mget" {
+			o.skip = "multi-get (Init does not rewind its key index on the unchanged tree)"
+			return ""
+		}
+		aggregated := chainHas(chain, "aggregate")
+		// how much is read before the restart
+		total := len(want)
+		o.unit = "rows"
+		if batch {
+			o.unit = "batches"
+			total = (len(want) + bs - 1) / bs
+		}
+		switch r.Intn(6) {
+		case 0:
+			o.k = 0
+		case 1:
+			o.k = 1
+		case 2, 3:
+			o.k = r.Intn(total + 1)
+		case 4:
+			o.k = total // everything, the end of the stream not yet seen
+		default:
+			o.k = total + 1 // everything and the end of the stream
+		}
+		if aggregated {
+			// AggregatePlan.Init of the unchanged tree does not clear `prepared`: once a row was asked for,
+			// a restarted aggregation returns nothing.  Only the restart before the first read is judged.
+			o.k = 0
+		}
+		if _, _, err := pollPlan(plan, kvql.NewExecuteCtx(), batch, o.k); err != nil {
+			o.skip = "error-before-restart"
+			return ""
+		}
+		mark := len(st.Log)
+		if err := plan.Init(); err != nil {
+			o.initErr = err
+			return ""
+		}
+		o.got, _, o.drainErr = pollPlan(plan, kvql.NewExecuteCtx(), batch, -1)
+		o.after = append([]string{}, st.Log[mark:]...)
+		return ""
+	})
+	pe.col.Eval(1)
+	if panicked {
+		pe.find("crash", "restart-panics", restartCase(rs.q, kvs, bs, batch, "read, Init(), drain"), restartLine(rs.q, kvs, bs, batch, o.k), msg, "no panic", []string{"C06"})
+		return
+	}
+	if o.skip != "" {
+		pe.col.Hist("restart-select-skipped:" + strings.SplitN(o.skip, " ", 2)[0])
+		return
+	}
+	what := fmt.Sprintf("plan %s | read %d %s, Init(), drain", strings.Join(o.chain, ">"), o.k, o.unit)
+	cs := restartCase(rs.q, kvs, bs, batch, what)
+	line := restartLine(rs.q, kvs, bs, batch, o.k)
+	props := []string{"C01"}
+	if o.node.Kind == "prefix" || o.node.Kind == "range" {
+		props = append(props, "C02")
+	}
+	if chainHas(o.chain, "order") {
+		props = append(props, "C07")
+	}
+	pe.col.Hist("restart-select:" + o.node.Kind)
+	if chainHas(o.chain, "aggregate") {
+		pe.col.Hist("restart-select:aggregate (before the first read only)")
+	}
+	if len(o.want) > 0 && o.k > 0 {
+		pe.col.Nontrivial(fmt.Sprintf("restart/%s/%s/%d/%v/%d", rs.q, storeWire(kvs), bs, batch, o.k))
+	}
+	if o.initErr != nil || o.drainErr != nil {
+		pe.find("property", "restart-select-fails", cs, line, fmt.Sprintf("Init: %v, drain: %v", o.initErr, o.drainErr), "ok "+showRowTexts(colRowsText(o.want, nil)), props)
+		return
+	}
+	same := true
+	if chainHas(o.chain, "order") && rs.ordCols != nil {
+		// rows that tie under ORDER BY may come in any order: the sequence of the order columns is
+		// determined, and without LIMIT so is the multiset of the rows
+		same = strings.Join(colRowsText(o.got, rs.ordCols), ";") == strings.Join(colRowsText(o.want, rs.ordCols), ";")
+		if same && !rs.limited {
+			same = multiset(colRowsText(o.got, nil)) == multiset(colRowsText(o.want, nil))
+		}
+	} else {
+		same = strings.Join(colRowsText(o.got, nil), ";") == strings.Join(colRowsText(o.want, nil), ";")
+	}
+	if !same {
+		pe.find("property", "restart-select-rows", cs, line, showRowTexts(colRowsText(o.got, nil)), "the rows of a fresh plan: "+showRowTexts(colRowsText(o.want, nil)), props)
+	}
+	if msg := trafficOracle(o.node, kvs, o.after, false); msg != "" {
+		pe.find("property", "restart-scan-traffic-"+o.node.Kind, cs, line, "after Init(): "+strings.Join(o.after, ";"), msg, []string{"C18"})
+	}
+	if n := countWrites(o.after); n > 0 {
+		pe.find("property", "restart-select-issues-write", cs, line, strings.Join(o.after, ";"), "no Put/BatchPut/Delete/BatchDelete", []string{"C13"})
+	}
+}
+
+// restartDelete: the delete half of the restart oracle
+func (pe *planEnv) restartDelete(q string, kvs []KV, bs int, batch bool) {
+	mode := "next"
+	if batch {
+		mode = "batch"
+	}
+	tail := strings.TrimPrefix(q, "delete where ")
+	type execT struct {
+		before   []KV
+		sel      []KV
+		dump     string
+		err      error
+		after    []string
+		selectOK bool
+	}
+	var (
+		skip  string
+		chain []string
+		node  *scanNode
+		execs []execT
+	)
+	msg, panicked := safely(func() string {
+		st := NewRefStore(kvs)
+		plan, err := kvql.NewOptimizer(q).BuildPlan(st)
+		if err != nil {
+			skip = "rejected"
+			return ""
+		}
+		var leaf kvql.Plan
+		chain, leaf = planChain(plan)
+		if len(chain) == 0 || chain[0] != "delete" || leaf == nil {
+			skip = "not-a-DeletePlan"
+			return ""
+		}
+		node, _, _ = nodeOfPlan(leaf)
+		if node.Kind == "mget" {
+			skip = "multi-get"
+			return ""
+		}
+		if _, _, err := pollPlan(plan, kvql.NewExecuteCtx(), batch, -1); err != nil {
+			skip = "first-execution-fails"
+			return ""
+		}
+		info, aerr := analyze(q)
+		for round := 0; round < 2; round++ {
+			var x execT
+			x.before = st.Pairs()
+			if aerr != nil {
+				skip = "not-analysable"
+				return ""
+			}
+			// C11 speaks about predicates that are evaluable: a pair of the region on which the predicate
+			// fails may or may not be met before the LIMIT is reached (the delete reads ahead in batches)
+			table, _ := filterTable(info.Filter, x.before)
+			for _, kv := range x.before {
+				if node.inRegion(kv.K) && table[kv.K] == 'e' {
+					if round == 0 {
+						skip = "not-evaluable"
+					}
+					return ""
+				}
+			}
+			sr := runEngine("select * where "+tail, x.before, mode, -1, nil)
+			x.selectOK = sr.Outcome == "ok"
+			x.sel = sr.Rows
+			mark := len(st.Log)
+			if err := plan.Init(); err != nil {
+				x.err = err
+			} else {
+				_, _, x.err = pollPlan(plan, kvql.NewExecuteCtx(), batch, -1)
+			}
+			x.after = append([]string{}, st.Log[mark:]...)
+			x.dump = st.Dump()
+			execs = append(execs, x)
+			if x.err != nil || !x.selectOK {
+				break
+			}
+		}
+		return ""
+	})
+	pe.col.Eval(1)
+	if panicked {
+		pe.find("crash", "restart-panics", restartCase(q, kvs, bs, batch, "execute, Init(), execute"), restartLine(q, kvs, bs, batch, 0), msg, "no panic", []string{"C06"})
+		return
+	}
+	if skip != "" {
+		pe.col.Hist("restart-delete-skipped:" + skip)
+		return
+	}
+	props := []string{"C11"}
+	if node.Kind == "prefix" || node.Kind == "range" {
+		props = append(props, "C02")
+	}
+	pe.col.Hist("restart-delete:" + node.Kind)
+	for i, x := range execs {
+		if !x.selectOK {
+			pe.col.Hist("restart-delete:select-not-ok")
+			return
+		}
+		what := fmt.Sprintf("plan %s | executed %d time(s), store then {%s}, Init(), executed again", strings.Join(chain, ">"), i+1, showKVs(x.before))
+		cs := restartCase(q, kvs, bs, batch, what)
+		line := restartLine(q, kvs, bs, batch, i+1)
+		gone := map[string]bool{}
+		for _, kv := range x.sel {
+			gone[kv.K] = true
+		}
+		var want []KV
+		for _, kv := range x.before {
+			if !gone[kv.K] {
+				want = append(want, kv)
+			}
+		}
+		if len(x.sel) > 0 {
+			pe.col.Nontrivial(fmt.Sprintf("restart/%s/%s/%d/%v/%d", q, storeWire(kvs), bs, batch, i))
+		}
+		if x.err != nil || x.dump != dumpOf(want) {
+			pe.find("property", "restart-delete-effect", cs, line, fmt.Sprintf("err=%v store %s", x.err, x.dump),
+				"ok "+dumpOf(want)+" (select * where "+tail+" returns "+showKVs(x.sel)+")", props)
+		}
+		for _, en := range x.after {
+			if isPutEntry(en) {
+				pe.find("property", "restart-delete-issues-put", cs, line, strings.Join(x.after, ";"), "no Put/BatchPut", []string{"C11"})
+				break
+			}
+		}
+		if msg := trafficOracle(node, x.before, x.after, false); msg != "" {
+			pe.find("property", "restart-delete-scan-traffic-"+node.Kind, cs, line, "after Init(): "+strings.Join(x.after, ";"), msg, []string{"C18"})
+		}
+	}
+}
+
+// planRestart: the restart phase of PLAN at one batch size
+func planRestart(e *Env, col *Collector, bs int) error {
+	per := e.n(4000, 40000)
+	return e.parallel(func(w int, d *Driver) error {
+		for i := w; i < per; i += e.Workers {
+			idx := uint64(bs)*1_000_000 + uint64(i)
+			r := NewRand(e.Seed, "PLAN-restart", idx)
+			pe := &planEnv{col: col, d: d, seed: e.Seed, idx: idx, grp: "PLAN"}
+			kvs := genStore(r, r.Intn(3*bs+4))
+			if r.Chance(3, 5) {
+				rs := genRestartSelect(r, bs, i)
+				for _, batch := range []bool{false, true} {
+					pe.restartSelect(r, rs, kvs, bs, batch)
+				}
+			} else {
+				q := "delete where " + pickPred(r, i)
+				if r.Chance(2, 3) {
+					if r.Chance(1, 3) {
+						q += fmt.Sprintf(" limit %d", r.Intn(2*bs+2))
+					} else {
+						q += fmt.Sprintf(" limit %d, %d", r.Intn(bs+2), r.Intn(2*bs+2))
+					}
+				}
+				for _, batch := range []bool{false, true} {
+					pe.restartDelete(q, kvs, bs, batch)
+				}
+			}
+		}
+		return nil
+	})
 }
 
 // ---------------------------------------------------------------- FAULT
